@@ -402,8 +402,10 @@ Section Sat.
   (* ---------------------------------------------------------------------------------------------- *)
   (* C01: the solution satisfies every asserted constraint *)
   (* ---------------------------------------------------------------------------------------------- *)
+  (* the environment of a rule application binds `this` to the atom; names are resolved from it as the planner linked it (rule of a
+     predicate of a class: the atom, then its object; rule of a global predicate: the predicate's parameters, then the global scope) *)
   Definition rule_env_ok (a : ident) (pd : pred_decl) (re : ident) : Prop :=
-    own sol re id_this = Some (VRef a) /\ extends sol re a = true /\ sat_list (pd_body pd) re.
+    own sol re id_this = Some (VRef a) /\ sat_list (pd_body pd) re.
 
   (* an active goal: its rule (super-predicates first) has been applied and every statement of it holds;
      an active fact: every rule that was applied to it (the implicit Interval / Impulse / Use rule of the
